@@ -372,6 +372,36 @@ def r8(ctx):
         raise AnchorError("expected 3 response waits, found %d" % n)
 
 
+def r9(ctx):
+    """'...disconnect, disable or shutdown yields the corresponding error': wherever one of the stop / task error enums is translated
+    into another (TaskError <-> StopReason <-> RunError <-> Shutdown), the variant built is the namesake of the variant matched
+    (Disabled -> Disable, Shutdown -> Shutdown): a disable reported as a shutdown closes the channel for good and fails the queued
+    requests with the wrong error."""
+    prog = ctx.prog
+    fam = r"(TaskError|StopReason|RunError|Shutdown|LinkError)$"
+    def nm(x):
+        return re.sub(r"[^a-z]", "", x.lower())
+    n = 0
+    for bd in prog.bodies_matching(r"^(<)?dnp3::(master|util|outstation)::"):
+        if "::test" in bd.path:
+            continue
+        for b, si, st in bd.assigns():
+            rv = st.rv
+            if rv["k"] != "agg" or rv.get("ak") != "enum" or not re.search(r"(StopReason|TaskError)$", rv["adt"]) or rv.get("ops"):
+                continue
+            gs = [g for g in ctx.guards_at(bd, b.idx) if g.kind == "is" and g.enum and re.search(fam, g.enum) and g.enum != rv["adt"] and not is_tracing(g.macros)]
+            if not gs:
+                continue
+            g = min(gs, key=lambda g: len(bd.region_of_edge(g.edge)))
+            src, dst = nm(g.name), nm(rv["var"])
+            if not (src.startswith(dst) or dst.startswith(src)) and not ({"shutdown", "disable", "disabled"} & {src, dst}):
+                continue  # unrelated variants (e.g. Link(_) arms building something else) are not a stop-reason translation
+            n += 1
+            ctx.check(src.startswith(dst) or dst.startswith(src), "stop-reason@%s:%s::%s" % (short(bd.path), g.enum.split("::")[-1], g.name), "%s::%s -> %s::%s" % (g.enum.split("::")[-1], g.name, rv["adt"].split("::")[-1], rv["var"]), bd.where(b.idx), bad_detail="%s::%s is translated to %s::%s" % (g.enum.split("::")[-1], g.name, rv["adt"].split("::")[-1], rv["var"]))
+    if n < 2:
+        raise AnchorError("stop-reason translations: %d" % n)
+
+
 RULES = [
     ("C16.R1", "T2", "command success and SELECT->OPERATE only behind a parsed, faithful echo", r1),
     ("C16.R2", "T2", "echo comparison: status SUCCESS, index+value equality, exact object and header counts", r2),
@@ -381,4 +411,5 @@ RULES = [
     ("C16.R6", "T3/T4", "queued tasks are failed on reset / rejection; dispatchers are exhaustive", r6),
     ("C16.R7", "T3", "every task handle/on_task_error completes or forwards its promise", r7),
     ("C16.R8", "T2-loop", "response deadlines are fixed before the wait loop", r8),
+    ("C16.R9", "T4-namesake", "stop / task error translations build the namesake variant (Disabled -> Disable, Shutdown -> Shutdown)", r9),
 ]
